@@ -272,3 +272,5 @@ func init() {
 		Rule: "tables of 3-6 keys (values nil / empty / adversarial, data files of ~100-300 bytes) under each data compression; every byte offset of the data file x {bit 0 flipped, bit 7 flipped, 00, ff, 91, 4c} (all 255 values on some tables in the thorough tier), every truncation length, swaps of neighbouring records; default options (verify on load) and verify-on-read; Get of every key, Scan and ScanStartingAt. Non-trivial: >=2 keys and >10 damages.",
 	})
 }
+
+func (c *c09Case) Evals() int { return len(c.Obs) }
